@@ -10,9 +10,12 @@ packet, and the output stream carries the payload of every newly accepted packet
 order, while corrupted or NAKed packets contribute nothing. A byte is marked last iff it ends a short
 packet and marked first iff it starts a transfer."
 
-The code as it is does **not** satisfy the full statement (three confirmed defect sites, recorded as
-known findings; witnesses below).  What is proved here, for every state and every input of the
-cycle-level model (`Model/Usb2/StreamOutEndpoint.lean`, co-simulated against the gateware):
+Three defects of the original code were confirmed by the monitor and repaired (two `fix:` commits):
+ACK of an overflowed, already discarded packet when the response request came after the discard
+(overflow was cleared by the discard); `first` missing after max-size packet + ZLP; `transfer_active`
+following discarded packets.  The model is the repaired endpoint, co-simulated against the gateware.
+
+What is proved here, for every state and every input of the cycle-level model:
 
 * the handshake equations: ACK and NAK are exclusive, are given only on a response request addressed
   to the endpoint, and say exactly what the registers say (`ack_implies_delivered_or_repeat_partial`,
@@ -20,16 +23,16 @@ cycle-level model (`Model/Usb2/StreamOutEndpoint.lean`, co-simulated against the
 * a packet is committed only without overflow and discarded otherwise; commit and discard are never
   requested together, reads are never discarded — so the FIFO is always driven inside the precondition
   of C18's `fifo_refines_queue` (`fifo_inputs_legal`), whatever the host does;
-* the overflow flag, once set by a lost byte, stays set until the packet's completion strobe discards the
-  packet (`overflow_sticky`), so a packet that lost a byte is never committed
-  (`lost_byte_never_committed_step`).
+* the overflow flag, once set by a lost byte, stays set until the next token (`overflow_sticky`), so the
+  packet is discarded at its completion strobe (`overflowed_packet_discarded`) and NAKed at the
+  response request (`overflowed_packet_naked`), however late that comes;
+* `transfer_active` changes only when a packet with data is committed or a zero-length packet is
+  accepted (`transfer_active_only_on_accept`).
 
-Full statements that do NOT hold on the code (kept visible):
-  `ack_implies_delivered_or_repeat` — fails when the response request comes after the overflow flag was
-     cleared by the discard (`ack_after_overflow_fails`);
-  `first_iff_transfer_start` — fails after max-size packet + ZLP (`first_iff_transfer_start_fails`) and
-     after a discarded packet (`first_after_discarded_packet_fails`);
-  `out_stream_exact`, `last_iff_short_packet_end` — not proved; covered by the monitor on the real gateware.
+PARTIAL: `out_stream_exact`, `last_iff_short_packet_end`, `first_iff_transfer_start` over whole histories
+are not proved as theorems (they need the composition with C28's event theorem and C18's refinement
+along the history); they are checked by the monitor on the real gateware, and the three former
+counterexamples are kernel-evaluated on the model below.
 -/
 namespace LunaVerif.StreamOutEndpoint
 open LunaVerif
@@ -95,20 +98,38 @@ theorem commit_only_without_overflow (c : Config) (s : State) (i : In)
   simp only [comb] at h
   cases ho : s.overflow <;> simp_all
 
-/-- Once a byte has been lost the flag stays set until the packet is discarded. -/
+/-- Once a byte has been lost the flag stays set until the next token. -/
 theorem overflow_sticky (c : Config) (s : State) (i : In) (h : s.overflow = true)
-    (hn : (comb c s i).writeDiscard = false) : (step c s i).1.overflow = true := by
-  have hc : (comb c s i).writeCommit = false := by
-    cases hcc : (comb c s i).writeCommit
-    · rfl
-    · have := commit_only_without_overflow c s i hcc; simp_all
-  simp only [step, hc, hn, h]
+    (hn : i.tokNew = false) : (step c s i).1.overflow = true := by
+  simp only [step, h, hn]
   cases (comb c s i).dataIsLost <;> simp
+
+/-- While the flag is set, the packet's completion strobe discards (and does not commit) it. -/
+theorem overflowed_packet_discarded (c : Config) (s : State) (i : In) (h : s.overflow = true)
+    (ht : (comb c s i).targeting = true) (hc : s.det.out.completeOut = true) :
+    (comb c s i).writeDiscard = true ∧ (comb c s i).writeCommit = false := by
+  simp only [comb] at ht ⊢
+  grind
+
+/-- While the flag is set, a response request for the packet (expected toggle) is answered with NAK. -/
+theorem overflowed_packet_naked (c : Config) (s : State) (i : In) (h : s.overflow = true)
+    (hd : (comb c s i).dataRequested = true) (hp : (comb c s i).pingRequested = false)
+    (hm : (comb c s i).pidMatch = true) : (outOf c s i).nak = true ∧ (outOf c s i).ack = false := by
+  simp only [outOf, comb] at hd hp hm ⊢
+  grind
+
+/-- `transfer_active` changes only when a packet with data is committed or a ZLP is accepted. -/
+theorem transfer_active_only_on_accept (c : Config) (s : State) (i : In)
+    (h1 : ((comb c s i).writeCommit && s.packetHasData) = false)
+    (h2 : ((comb c s i).dataRequested && (comb c s i).dataAccepted && !s.packetHasData) = false) :
+    (step c s i).1.transferActive = s.transferActive := by
+  simp only [step, h1]
+  grind
 
 /-- A lost byte sets the flag in the same cycle (it has priority over the clearing by commit/discard). -/
 theorem lost_byte_sets_overflow (c : Config) (s : State) (i : In) (h : (comb c s i).dataIsLost = true) :
     (step c s i).1.overflow = true := by
-  simp [step, h]
+  simp only [step, h]; simp
 
 /-- A cycle that loses a byte or follows a loss never commits in the next cycle. -/
 theorem lost_byte_never_committed_step (c : Config) (s : State) (i j : In)
@@ -118,7 +139,7 @@ theorem lost_byte_never_committed_step (c : Config) (s : State) (i j : In)
   · rfl
   · have := commit_only_without_overflow c _ j hcc; simp_all
 
-/-! ## Witnesses for the parts of the property the code violates (model runs, kernel-evaluated) -/
+/-! ## The three former counterexamples, on the repaired model (kernel-evaluated runs) -/
 
 def runOuts (c : Config) : State → List In → List Out
   | _, [] => []
@@ -129,11 +150,12 @@ def transfers (ins : List In) (outs : List Out) : List (Nat × Bool × Bool) :=
   (ins.zip outs).filterMap (fun (i, o) => if i.ready && o.valid then some (o.data, o.first, o.last) else none)
 
 def idleIn (ep pid : Nat) (ready : Bool) : In :=
-  ⟨⟨false, false, 0, false, false⟩, false, pid, ep, true, false, false, false, ready⟩
+  ⟨⟨false, false, 0, false, false⟩, false, pid, ep, true, false, false, false, false, ready⟩
 
-/-- one CRC-valid OUT data packet as the receiver presents it (dense), the response request `d ≥ 1`
-cycles after `rx_complete`, then four idle cycles -/
+/-- one OUT transaction with a CRC-valid data packet as the receiver presents it (dense): the token
+strobe, the bytes, `rx_complete`, the response request `d ≥ 1` cycles later, four idle cycles -/
 def outPacket (ep pid : Nat) (ready : Bool) (payload : List Nat) (d : Nat) : List In :=
+  [{ idleIn ep pid ready with tokNew := true }, idleIn ep pid ready] ++
   payload.map (fun b => { idleIn ep pid ready with rx := ⟨true, true, b, false, false⟩ }) ++
   [{ idleIn ep pid ready with rx := ⟨true, false, 0, false, false⟩ },
    { idleIn ep pid ready with rx := ⟨false, false, 0, true, false⟩ }] ++
@@ -142,39 +164,37 @@ def outPacket (ep pid : Nat) (ready : Bool) (payload : List Nat) (d : Nat) : Lis
 
 /-- a CRC-corrupted packet: `rx_invalid`, no response request -/
 def badPacket (ep pid : Nat) (ready : Bool) (payload : List Nat) : List In :=
+  [{ idleIn ep pid ready with tokNew := true }, idleIn ep pid ready] ++
   payload.map (fun b => { idleIn ep pid ready with rx := ⟨true, true, b, false, false⟩ }) ++
   [{ idleIn ep pid ready with rx := ⟨true, false, 0, false, false⟩ },
    { idleIn ep pid ready with rx := ⟨false, false, 0, false, true⟩ }] ++ List.replicate 6 (idleIn ep pid ready)
 
-/-- F7: mps 4, buffer 7, consumer always ready.  Transfer 1 = max-size packet + ZLP, transfer 2 = a
-2-byte packet: byte 21 starts transfer 2 but is delivered with `first = false`.
-(Full statement that fails: every byte that starts a transfer is marked first.) -/
-theorem first_iff_transfer_start_fails :
+/-- mps 4, buffer 7: transfer 1 = max-size packet + ZLP, transfer 2 = a 2-byte packet: byte 21 starts
+transfer 2 and is marked first (the original code delivered it with `first = false`). -/
+theorem first_after_zlp_marked :
     let ins := outPacket 2 0 true [11, 12, 13, 14] 2 ++ outPacket 2 1 true [] 2 ++ outPacket 2 0 true [21, 22] 2
                  ++ List.replicate 6 (idleIn 2 1 true)
     transfers ins (runOuts ⟨2, 4, 7⟩ init ins)
       = [(11, true, false), (12, false, false), (13, false, false), (14, false, false),
-         (21, false, false), (22, false, true)] := by decide +kernel
+         (21, true, false), (22, false, true)] := by decide +kernel
 
-/-- A discarded packet moves `transfer_active` too: after a complete 1-byte transfer, a corrupted
-max-size packet (discarded) makes the next transfer's first byte lose its mark. -/
-theorem first_after_discarded_packet_fails :
+/-- A discarded packet no longer moves `transfer_active`: after a complete 1-byte transfer, a corrupted
+max-size packet is discarded and the next transfer's first byte keeps its mark. -/
+theorem first_after_discarded_packet_marked :
     let ins := outPacket 2 0 true [11] 2 ++ badPacket 2 1 true [66, 79] ++ outPacket 2 1 true [21] 2
                  ++ List.replicate 6 (idleIn 2 0 true)
-    transfers ins (runOuts ⟨2, 2, 3⟩ init ins) = [(11, true, true), (21, false, true)] := by decide +kernel
+    transfers ins (runOuts ⟨2, 2, 3⟩ init ins) = [(11, true, true), (21, true, true)] := by decide +kernel
 
-/-- ACK of a discarded packet: mps 4, buffer 7, consumer stalled, response request 10 cycles after
-`rx_complete` (full speed at 60 MHz).  The second packet overflows the FIFO and is discarded at its
-completion strobe, which also clears `overflow`; eight cycles later it is ACKed (and the toggle
-advances).  Listed: (ack, nak) of the two response cycles and, after the consumer drains everything,
-the delivered bytes — the second packet is not among them.
-(Full statement that fails: an ACKed new packet's payload is delivered.) -/
-theorem ack_after_overflow_fails :
+/-- mps 4, buffer 7, consumer stalled, response request 10 cycles after `rx_complete` (full speed at
+60 MHz): the second packet overflows the FIFO, is discarded and is now NAKed (the original code ACKed
+it); the host's retry after the consumer has drained is ACKed and delivered. -/
+theorem overflowed_packet_naked_then_retried :
     let ins := outPacket 2 0 false [11, 12, 13, 14] 10 ++ outPacket 2 1 false [21, 22, 23, 24] 10
-                 ++ List.replicate 12 (idleIn 2 0 true)
+                 ++ List.replicate 8 (idleIn 2 1 true) ++ outPacket 2 1 true [21, 22, 23, 24] 10
+                 ++ List.replicate 8 (idleIn 2 0 true)
     let outs := runOuts ⟨2, 4, 7⟩ init ins
     ((ins.zip outs).filterMap (fun (i, o) => if i.rxReady then some (o.ack, o.nak) else none),
      (transfers ins outs).map (·.1))
-      = ([(true, false), (true, false)], [11, 12, 13, 14]) := by decide +kernel
+      = ([(true, false), (false, true), (true, false)], [11, 12, 13, 14, 21, 22, 23, 24]) := by decide +kernel
 
 end LunaVerif.StreamOutEndpoint
